@@ -3,6 +3,7 @@ package c06
 
 import (
 	"fmt"
+	"net/url"
 	"strings"
 	"testing"
 	"unicode/utf8"
@@ -221,6 +222,29 @@ type DerivedCase struct {
 
 var subDerived = ev.Register("derived", func(c DerivedCase) error {
 	var base sourceaddrs.Source
+	if c.Op == "make" {
+		// MakeRemoteSource(type, URL, sub-path): Base is the URL text, Arg is "type|sub-path"
+		typ, sub, _ := strings.Cut(c.Arg, "|")
+		u, err := url.Parse(c.Base)
+		if err != nil {
+			ev.Label("base-rejected")
+			return nil
+		}
+		rs, err := sourceaddrs.MakeRemoteSource(typ, u, sub)
+		if err != nil {
+			ev.Label("make-rejected")
+			return nil
+		}
+		if strings.ContainsAny(rs.SubPath(), "?#") && ev.IsKnown("c06-subpath-query-chars") {
+			ev.Excluded("c06-subpath-query-chars")
+			return nil
+		}
+		ev.NonTrivial(c, "derived:make")
+		if e := roundTrip(sourceaddrs.Source(rs)); e != nil {
+			return fmt.Errorf("MakeRemoteSource(%q, %q, %q): %v", typ, c.Base, sub, e)
+		}
+		return nil
+	}
 	if c.Op != "resolvefinal" {
 		var err error
 		base, err = sourceaddrs.ParseSource(c.Base)
@@ -352,8 +376,13 @@ func TestPropParsed(t *testing.T) {
 
 func TestPropDerived(t *testing.T) {
 	ev.Check(t, subDerived, func(t *rapid.T) DerivedCase {
-		c := DerivedCase{Op: rapid.SampledFrom([]string{"resolve", "resolve", "resolvefinal", "versioned", "finaladdr", "sourceaddr"}).Draw(t, "op")}
+		c := DerivedCase{Op: rapid.SampledFrom([]string{"resolve", "resolve", "resolvefinal", "versioned", "finaladdr", "sourceaddr", "make"}).Draw(t, "op")}
 		switch c.Op {
+		case "make":
+			c.Base = rapid.SampledFrom([]string{"https://example.com/repo.git", "https://example.com/pkg.tgz", "ssh://git@example.com/repo.git", "https://example.com/dl/?archive=tgz",
+				"https://example.com/a%20b/pkg.tar.gz?x=1", "https://EXAMPLE.com:443/Repo.git?ref=v1", "https://example.com/pkg.zip?archive=tgz&checksum=1", "http://example.com/repo.git", "https://example.com"}).Draw(t, "url")
+			c.Arg = rapid.SampledFrom([]string{"git", "https", "http", "Git", "GIT", "HTTPS", "Https", "hg", "", "git::", " git"}).Draw(t, "type") + "|" +
+				rapid.SampledFrom([]string{"", "", "modules/a", "x", "with space", "a//b", "../up", "."}).Draw(t, "makesub")
 		case "resolve":
 			c.Base = addrgen.Valid(t, rapid.SampledFrom([]string{"local", "registry", "git", "archive", "shorthand"}).Draw(t, "bk"))
 			c.Arg = relArg(t)
